@@ -91,6 +91,12 @@ def copy_clauses(vc, sl, out):
     for k in cin:
         if k != "scope" and k in cout:
             vc.ensure(f"same_config.{k}", vc.eq(cin[k], cout[k]))
+    # every scalar hyper-parameter the layer HOLDS (not only what `config` chooses to list: copyref rebuilds the layer from config, so a
+    # hyper-parameter missing there silently falls back to the constructor's default - e.g. log_space of a constant layer)
+    from engine.values import is_z3 as _isz3
+    for fname, fval in sl.fields.items():
+        if isinstance(fval, (bool, int)) or _isz3(fval):
+            vc.ensure(f"same_attribute.{fname}", fname in out.fields and vc.eq(out.fields[fname], fval))
     env = {}
     for name in pin:
         if name not in pout:
